@@ -208,7 +208,8 @@ deriving Repr, DecidableEq
     handler at "/" (method GET, collects the body, maxbody default).  Returns the decision, the new
     sc->close and sc->unconsumed_body. -/
 def sconnRx (l : WsL) (m : HttpConn.Msg) (close : Bool) : Srv × Bool × Nat :=
-  if HttpConn.getStatus m ≥ stBadRequest then (.error (HttpConn.getStatus m), close, 0)
+  -- a request the parser rejected: the end of the request is unknown, the connection is closed after the answer
+  if HttpConn.getStatus m ≥ stBadRequest then (.error (HttpConn.getStatus m), true, 0)
   else if m.vers.take 7 ≠ asc "HTTP/1." then (.error stVersionNotSupp, true, 0)
   else
     let v11 := m.vers == asc "HTTP/1.1"
@@ -221,11 +222,17 @@ def sconnRx (l : WsL) (m : HttpConn.Msg) (close : Bool) : Srv × Bool × Nat :=
                                | none => false)
       if (hdrGet m (asc "Transfer-Encoding")).isSome then (.error stNotImplemented, true, 0)
       else
-        let unconsumed := match hdrGet m (asc "Content-Length") with
+        let clen := hdrGet m (asc "Content-Length")
+        let unconsumed := match clen with
                           | some v => strtoull v
                           | none => 0
         let host := hdrGet m (asc "Host")
-        if host.isNone && v11 then (.error stBadRequest, close2, unconsumed)
+        -- Content-Length must be a plain decimal number (first byte a digit, nothing after the digits): else 400 and close
+        if (match clen with
+            | some v => !(match v.head? with | some c => decide (0x30 ≤ c ∧ c ≤ 0x39) | none => false) ||
+                        !(v.all fun c => decide (0x30 ≤ c ∧ c ≤ 0x39))
+            | none => false) then (.error stBadRequest, true, 0)
+        else if host.isNone && v11 then (.error stBadRequest, close2, unconsumed)
         else if !hostMatch l host then (.error stNotFound, close2, unconsumed)
         else if uri ≠ [0x2F] then (.error stNotFound, close2, unconsumed)     -- handler uri "" and not a tree
         else if m.meth ≠ asc "GET" ∧ m.meth ≠ asc "HEAD" then (.error stMethodNotAllowed, close2, unconsumed)
